@@ -2510,6 +2510,7 @@ func specTellable(m LogWriter) bool {
 
 
 
+
 // ---- generated by /verif/tools/gen_auto.py: synthesized contracts for the no-panic sweep of printImpl's call tree
 //@ func convertLevelToLogSlog
 //@   props C02
@@ -2676,10 +2677,6 @@ func specTellable(m LogWriter) bool {
 //@   auto
 
 //@ func (*PrintCtx).AddPrefixedString
-//@   props C02
-//@   auto
-
-//@ func (colorizeToolS).padFunc
 //@   props C02
 //@   auto
 
